@@ -2,6 +2,7 @@ package main
 
 import (
 	"fmt"
+	"strings"
 )
 
 // One generator per claimed property.  All of them share the pieces in gen.go;
@@ -176,6 +177,32 @@ func (g *gen) genC08() {
 		}
 		c.Tasks[t] = append(c.Tasks[t], op)
 	}
+	if g.chance(0.06) {
+		// custom delimiters: set on the root before anything is parsed; every
+		// text of this case is written with them
+		d := g.pick([]string{"[[ ]]", "<% %>", "{% %}", "(( ))"})
+		lr := strings.SplitN(d, " ", 2)
+		conv := func(t string) string {
+			return strings.ReplaceAll(strings.ReplaceAll(t, "{{", lr[0]), "}}", lr[1])
+		}
+		defs := []Op{c.Defs[0], {ID: g.id(), Kind: opDelims, Set: 0, Text: d}}
+		for _, op := range c.Defs[1:] {
+			op.Text = conv(op.Text)
+			defs = append(defs, op)
+		}
+		c.Defs = defs
+		for t := range c.Tasks {
+			for i := range c.Tasks[t] {
+				if c.Tasks[t][i].Kind == opParse {
+					c.Tasks[t][i].Text = conv(c.Tasks[t][i].Text)
+				}
+			}
+		}
+		for f, txt := range c.Disk {
+			c.Disk[f] = conv(txt)
+		}
+		c.Profile += "delims "
+	}
 	c.Profile += fmt.Sprintf("C08 tasks=%d", ntasks)
 	if g.chance(0.5) {
 		g.execFaults(g.opPtrs(), 0.3)
@@ -224,7 +251,7 @@ func (g *gen) parseOp(set int, names []string, useDisk bool) Op {
 	case n < 80 && useDisk:
 		return Op{ID: id, Kind: opParseGlob, Set: set, Recv: recv, Text: g.pick(constGlobs), Via: g.pick([]string{"const", "trusted"})}
 	case n < 92 && useDisk:
-		return Op{ID: id, Kind: opParseFS, Set: set, Recv: recv, Files: []string{g.pick([]string{"*.tmpl", "sub/*.tmpl", "a.tmpl", "nomatch*", "[", "c.tmpl"})}}
+		return Op{ID: id, Kind: opParseFS, Set: set, Recv: recv, Via: g.pick([]string{"", "", "dirfs", "sub"}), Files: []string{g.pick([]string{"*.tmpl", "sub/*.tmpl", "a.tmpl", "nomatch*", "[", "c.tmpl", "d.tmpl"})}}
 	default:
 		return Op{ID: id, Kind: opParseConst, Set: set, Recv: recv, Const: g.r.Intn(len(constTexts))}
 	}
